@@ -365,12 +365,16 @@ func (gen *generator) irAttrGroupDef(new *ir.AttrGroupDef, oldDefs []*ast.AttrGr
 	present := make(map[string]bool)
 	for _, oldDef := range oldDefs {
 		for _, oldFuncAttr := range oldDef.FuncAttrs() {
-			lit := oldFuncAttr.LlvmNode().Text()
+			funcAttr := gen.irFuncAttribute(oldFuncAttr)
+			// Duplicates are recognized by the printed form of the attribute
+			// rather than by its source text; otherwise two spellings of one
+			// attribute (e.g. `"k"="v"` and `"k" = "v"`) would both be kept,
+			// printed alike, and merged only when the output is parsed again.
+			lit := funcAttr.String()
 			if present[lit] {
 				// skip duplicate attribute.
 				continue
 			}
-			funcAttr := gen.irFuncAttribute(oldFuncAttr)
 			new.FuncAttrs = append(new.FuncAttrs, funcAttr)
 			present[lit] = true
 		}
